@@ -437,6 +437,13 @@ fn witnesses() -> Vec<(&'static str, Case)> {
     vec![
         ("rows-following-offset-overflow", mk(Fun::Sum, Frame { u: U::Rows, sb: B::CR, eb: B::F(u64::MAX) }, 8192)),
         ("groups-following-offset-overflow", mk(Fun::Sum, Frame { u: U::Groups, sb: B::CR, eb: B::F(u64::MAX) }, 8192)),
+        // RANGE .. n PRECEDING end bound is taken as causal: a NULL-key row is answered before its NULL peers have arrived
+        ("range-end-preceding-null-peers", Case {
+            rows: vec![Row { id: 0, p: Some(1), k: Some(1), x: Some(1) }, Row { id: 1, p: Some(1), k: None, x: Some(2) }, Row { id: 2, p: Some(1), k: None, x: Some(3) }],
+            desc: false, nf: false,
+            cols: vec![WinCol { f: Fun::Count, frame: Some(Frame { u: U::Range, sb: B::UP, eb: B::P(1) }) }],
+            tp: 1, bs: 1, chunk: 100,
+        }),
         ("plain-bounded", mk(Fun::Sum, Frame { u: U::Groups, sb: B::F(1), eb: B::F(2) }, 1)),
         ("plain-whole", mk(Fun::Sum, Frame { u: U::Rows, sb: B::P(1), eb: B::UF }, 2)),
     ]
